@@ -52,12 +52,13 @@ def build_harness():
     return time.time() - t0
 
 
-def rbxv(args, stdin_path=None, stdout_path=None, input_bytes=None, timeout=3600, check=True):
+def rbxv(args, stdin_path=None, stdout_path=None, input_bytes=None, timeout=3600, check=True, env=None):
     fin = open(stdin_path, "rb") if stdin_path else None
     fout = open(stdout_path, "wb") if stdout_path else subprocess.PIPE
     try:
         p = subprocess.run([RBXV] + [str(a) for a in args], stdin=fin, input=input_bytes,
-                           stdout=fout, stderr=subprocess.PIPE, timeout=timeout)
+                           stdout=fout, stderr=subprocess.PIPE, timeout=timeout,
+                           env=dict(os.environ, **env) if env else None)
     except subprocess.TimeoutExpired:
         raise ToolError("harness timed out: %s" % (args,))
     finally:
